@@ -2016,6 +2016,10 @@ func (c *Compiler) getIdentities(cfgNode parse.Node, i schema.Identityref, node 
 	idid, _ := c.identities[tm.Name()+":"+ident.Name()]
 
 	idents := make([]*schema.Identity, 0, 0)
+	if idid == nil {
+		// skipUnknown: the base identity is not among those loaded
+		return idents
+	}
 
 	c.assertReferenceStatus(node, idid, parentStatus)
 	node.AddChildren(ident)
